@@ -68,14 +68,47 @@ impl AncillaryFilesManifest {
 
     #[verifier::external_body]
     pub fn signature(&self) -> (r: Option<ManifestSignature>) ensures r == self.signable_manifest.signature { unimplemented!() }
-    /// SHA-256 over the (path, hash) entries in order
-    #[verifier::external_body]
-    pub fn compute_hash(&self) -> (r: ManifestHash) ensures r == manifest_hash(self.signable_manifest.data@) { unimplemented!() }
+
+    //@extract file=internal/cardano-node/mithril-cardano-node-internal-database/src/entities/ancillary_files_manifest.rs fn=compute_hash within="impl AncillaryFilesManifest"
+    //@ rewrite /-> Vec<u8>/ => /-> ManifestHash/
+    //@ rewrite /for \(key, value\) in &self\.signable_manifest\.data \{/ => /for verif_e in it: self.signable_manifest.data.iter() { let (key, value) = (&verif_e.0, &verif_e.1);/
+    //@ rewrite /hasher\.update\(key\.to_string_lossy\(\)\.as_bytes\(\)\);/ => /hasher.update_path(key);/
+    //@ rewrite /hasher\.update\(value\.as_bytes\(\)\);/ => /hasher.update_str(value);/
+    //@ rewrite /hasher\.finalize\(\)\.to_vec\(\)/ => /hasher.finalize_to_vec()/
+    //@ spec ensures ret == manifest_hash(self.signable_manifest.data@)
+    //@ loop 0 invariant 0 <= it.index@ <= self.signable_manifest.data@.len(), fed(&hasher) == preimage(self.signable_manifest.data@, it.index@ as int),
+    //@end
     /// the listed relative paths, in order
     #[verifier::external_body]
     pub fn files(&self) -> (r: Vec<PathBuf>) ensures r@ == listed_files(self.signable_manifest.data@) { unimplemented!() }
 }
-pub uninterp spec fn manifest_hash(d: Seq<(PathBuf, String)>) -> ManifestHash;
+/// what the manifest's signature covers: SHA-256 of, for every entry IN ORDER, the FULL relative path string (lossy UTF-8,
+/// separators included) followed by the listed hash string
+pub open spec fn preimage(d: Seq<(PathBuf, String)>, j: int) -> Seq<u8>
+    decreases j
+{
+    if j <= 0 { Seq::empty() } else { preimage(d, j - 1) + path_string_bytes(&d[j - 1].0) + string_bytes(d[j - 1].1@) }
+}
+pub uninterp spec fn path_string_bytes(p: &PathBuf) -> Seq<u8>;
+pub uninterp spec fn string_bytes(s: Seq<char>) -> Seq<u8>;
+pub uninterp spec fn sha256(b: Seq<u8>) -> ManifestHash;
+pub open spec fn manifest_hash(d: Seq<(PathBuf, String)>) -> ManifestHash { sha256(preimage(d, d.len() as int)) }
+/// sha2::Sha256 as an accumulator of the bytes fed so far (Digest::update / finalize)
+#[verifier::external_body] pub struct Sha256 { _p: core::marker::PhantomData<u8> }
+pub uninterp spec fn fed(h: &Sha256) -> Seq<u8>;
+impl Sha256 {
+    #[verifier::external_body]
+    pub fn new() -> (r: Self) ensures fed(&r) == Seq::<u8>::empty() { unimplemented!() }
+    /// `update(path.to_string_lossy().as_bytes())`
+    #[verifier::external_body]
+    pub fn update_path(&mut self, p: &PathBuf) ensures fed(final(self)) == fed(old(self)) + path_string_bytes(p) { unimplemented!() }
+    /// `update(s.as_bytes())`
+    #[verifier::external_body]
+    pub fn update_str(&mut self, s: &String) ensures fed(final(self)) == fed(old(self)) + string_bytes(s@) { unimplemented!() }
+    /// `finalize().to_vec()`
+    #[verifier::external_body]
+    pub fn finalize_to_vec(self) -> (r: ManifestHash) ensures r == sha256(fed(&self)) { unimplemented!() }
+}
 pub uninterp spec fn listed_files(d: Seq<(PathBuf, String)>) -> Seq<PathBuf>;
 /// Ed25519: `sig` is a valid signature of `h` under the verifier's (configured) key
 pub uninterp spec fn signature_valid(v: &ManifestVerifier, h: ManifestHash, sig: ManifestSignature) -> bool;
